@@ -205,7 +205,7 @@ def playback(base, h, features, mem_gb, timeout, unwindset=None):
     crate = os.path.join(base, "crate")
     tdir = os.path.join(base, "kt" + ("-" + "-".join(features) if features else ""))
     cmd = ["cargo", "kani", "--target-dir", tdir, "-Z", "stubbing", "-Z", "concrete-playback", "-Z", "unstable-options",
-           "--concrete-playback=print", "--exact", "--harness",
+           "--concrete-playback=print", "--no-assertion-reach-checks", "--exact", "--harness",
            h["module"].replace("crate::", "", 1) + "::" + h["name"]]
     if features:
         cmd += ["--features", ",".join(features)]
